@@ -85,7 +85,7 @@ def _run_job(arg):
         r = {'status': 'inconclusive', 'reason': 'unexpected concrete panic in engine run: %s' % e}
     except Exception as e:       # engine fault: never report as held
         r = {'status': 'inconclusive', 'reason': 'engine fault: %s\n%s' % (e, traceback.format_exc()[-1500:])}
-    r['job'] = job if isinstance(job, (str, int, list, tuple, dict)) else repr(job)
+    r['job'] = repr(job) if len(repr(job)) < 160 else repr(job)[:157] + '...'
     r['wall_s'] = round(time.time() - t0, 3)
     return r
 
